@@ -161,7 +161,7 @@ def verify_for_rules(R, pfx):
             # all-form: the claimed id is the closure's element, which must come from to_peer_id in the iterated helper
             names, _ = __import__("rules")._chain_calls(F, vf, op_local([x for x in vf.blocks if x["term"]["k"] == "call" and (x["term"]["ngen"] or "").endswith("iterator::Iterator::all")][0]["term"]["args"][0]))
             okc = any(n.endswith("EncodedPeerId::to_peer_id") for n in names) or any(
-                c["ncallee"] == "ant_evm::data_payments::EncodedPeerId::to_peer_id" for hb in F.bodies.values() if hb.crate == "ant_evm" and hb.kind == "closure" for c in hb.calls
+                c["ncallee"] == "ant_evm::data_payments::EncodedPeerId::to_peer_id" for hb in F.bodies.values() if hb.crate == "ant_evm" and hb.kind == "closure" for c in hb.calls_raw
                 if F.root_of(hb).npath in names)
     if not okc:
         R.viol(pfx + ".verify_for.claimed", "claimed-peer", "verify_for does not check each quote against the peer id the proof claims for it", vf, vf.lines[0])
